@@ -251,10 +251,15 @@ def emitUnpack (l r : Nat) (starred : Bool) (n : Nat) : Prog :=
   ⟨1, i1 ++ i2 ++ (if starred then [] else [⟨.discardEmpty, [a2], 0⟩]),
     e1 ++ (if starred then [a2] else []) ++ e2.reverse⟩
 
-/-- order in which `_assign_array` binds the targets (positions in the pattern: left targets
-    `0 … l-1`, the starred target `l` if any, then the right targets): the `pop` helper assigns the
-    left targets, then the right targets in pattern order, and the starred target last. -/
+/-- order in which `_assign_array` (and `_assign_tuple`, and the checker) bind the targets, as
+    positions in the pattern (left targets `0 … l-1`, the starred target `l` if any, then the right
+    targets): strictly pattern order, the starred target in its place (/repo 535d821: `pop` returns
+    the popped elements, binding happens afterwards: left, starred, right). -/
 def assignOrder (l r : Nat) (starred : Bool) : List Nat :=
+  List.range (l + (if starred then 1 else 0) + r)
+
+/-- the order used before 535d821: left targets, right targets, the starred target LAST -/
+def assignOrderOld (l r : Nat) (starred : Bool) : List Nat :=
   List.range l ++ (List.range r).map (· + l + (if starred then 1 else 0)) ++ (if starred then [l] else [])
 
 /-- binding the targets one after the other: a later binding of the same name replaces the earlier -/
